@@ -1219,7 +1219,6 @@ package mcp
 // checked against that very tool. Older versions are exempt. The client sets exactly these headers from the body.
 // extractName decodes the params into a fresh value: nothing visible changes; only the three named methods have a name.
 //@ func extractName [C12]
-//@   modifies extern
 //@   ensures @only-named-methods-have-a-name result.1 ==> method == "tools/call" || method == "prompts/get" || method == "resources/read"
 //@ func validateMcpHeaders [C12]
 //@   track extractName as name
